@@ -7,6 +7,9 @@ From RPFT Require Import Base.Sexp Base.PyStr Base.PyStrFacts Base.Result Gen.Ta
      Comp.RefineEdge.
 Import ListNotations.
 
+Section WithNames.
+Context {GN : GenNames}.
+
 (* ---------------------------------------------------------------- loose exits of a decision *)
 Definition is_dnone (d : dest) : bool := match d with DNone => true | _ => false end.
 
@@ -88,7 +91,8 @@ Qed.
 Lemma shape_filled cls d tgt : shape_ok cls d -> shape_ok cls (dec_filled d tgt).
 Proof.
   destruct cls; cbn.
-  - unfold plain_dec. cbn. rewrite map_length. auto.
+  - unfold plain_dec. cbn. rewrite map_length. intros (P1 & P2 & P3). split; [exact P1|]. split; [exact P2|].
+    destruct (rd_noresp d) as [[nm x]|]; [exact P3|exact I].
   - intros (x & ->). cbn. eexists. reflexivity.
   - intros (x & ->). cbn. eexists. reflexivity.
 Qed.
@@ -270,7 +274,8 @@ Lemma noop_edge_sim phi sr sc k k1 ndq rq c tgt dd n d sc' :
   noop_router_edge fresh sc k1 dd c = Ok sc' ->
   Sim phi (RowSem.set_node sr k (mkRNode [] (Some (noop_case nab d c tgt)) DNone)) sc'.
 Proof.
-  intros Hsim Hst Hc0 Hnq Hbq Hk Hdec Hact (Hcn & _ & Hna) Hd. unfold noop_router_edge. rewrite Hnq, Hbq.
+  intros Hsim Hst Hc0 Hnq Hbq Hk Hdec Hact Hcok Hd. destruct (cond_ok_names c Hcok) as [Hnm _]. destruct Hcok as (_ & Hna & _).
+  unfold noop_router_edge. rewrite Hnq, Hbq.
   destruct (sim_nodes _ _ _ Hsim k n _ Hk Hc0) as (nd & o & Hcl & Hns). unfold cluster_nodes in Hcl. cbn in Hcl. rewrite Hnq in Hcl.
   injection Hcl as <- <-. inversion Hns as [? ? e H1 H2|? ? cls r d0 H1 H2 H3 H4 H5|]; subst; [congruence|].
   assert (d0 = d) by congruence. subst d0. assert (cls = SPlain /\ r = rq) as [-> ->] by (rewrite Hbq in H2; injection H2; auto).
@@ -279,15 +284,15 @@ Proof.
   unfold noop_case. destruct (c_value c) as [|v0 v] eqn:Ev; cbn [nonempty negb andb].
   - unfold nab. destruct (memb (c_type c) no_args_tests) eqn:Em; cbn [negb andb].
     + destruct (sw_add_choice fresh (cs_next sc) rq _ _ _ _ _ _) as [[r' n1]|x] eqn:Ea; [|discriminate]. intros H. injection H as <-.
-      rewrite Hcn, Hna in Ea.
-      destruct (dec_sim_add_case fresh fresh_inj phi (cuu sc) _ _ d rq (c_variable c) (c_type c) [] (ref_args c) tgt dd r' n1 H4 H5 Hok Hd Ea) as [Hds' Hpl'].
-      rewrite Hcn. eapply (Sim_dec_update fresh fresh_inj phi sr sc k n (k1, None)); eauto.
+      rewrite Hna in Ea.
+      destruct (dec_sim_add_case fresh fresh_inj phi (cuu sc) _ _ d rq (c_variable c) (c_type c) [] (ref_args c) (c_cname c) tgt dd r' n1 H4 H5 Hok Hd Hnm Ea) as [Hds' Hpl'].
+      eapply (Sim_dec_update fresh fresh_inj phi sr sc k n (k1, None)); eauto.
     + intros H. injection H as <-.
       eapply (Sim_dec_update fresh fresh_inj phi sr sc k n (k1, None)); eauto; try (apply dec_sim_set_default; assumption); try exact H5.
   - destruct (sw_add_choice fresh (cs_next sc) rq _ _ _ _ _ _) as [[r' n1]|x] eqn:Ea; [|discriminate]. intros H. injection H as <-.
-    rewrite Hcn, Hna in Ea.
-    destruct (dec_sim_add_case fresh fresh_inj phi (cuu sc) _ _ d rq (c_variable c) (c_type c) (v0 :: v) (ref_args c) tgt dd r' n1 H4 H5 Hok Hd Ea) as [Hds' Hpl'].
-    rewrite Hcn. eapply (Sim_dec_update fresh fresh_inj phi sr sc k n (k1, None)); eauto.
+    rewrite Hna in Ea.
+    destruct (dec_sim_add_case fresh fresh_inj phi (cuu sc) _ _ d rq (c_variable c) (c_type c) (v0 :: v) (ref_args c) (c_cname c) tgt dd r' n1 H4 H5 Hok Hd Hnm Ea) as [Hds' Hpl'].
+    eapply (Sim_dec_update fresh fresh_inj phi sr sc k n (k1, None)); eauto.
 Qed.
 
 (* ---------------------------------------------------------------- what add_exit may change among the reference groups *)
@@ -439,7 +444,7 @@ Proof.
       set (n0 := mkRNode [] (Some (fresh_dec (v0 :: v) WNone DNone)) DNone).
       pose proof (new_switch_dec_sim fresh fresh_inj phi1 uu1 _ _ None _ _ Enew (or_introl eq_refl)) as Hds0.
       assert (Hns0 : node_sim phi1 uu1 n0 nn None).
-      { eapply NS_router with (cls := SPlain) (r := r0) (d := fresh_dec (v0 :: v) WNone DNone); cbn; eauto. constructor. }
+      { eapply NS_router with (cls := SPlain) (r := r0) (d := fresh_dec (v0 :: v) WNone DNone); cbn; eauto. split; [constructor|split; [reflexivity|exact I]]. }
       pose proof (Sim_noop_router phi sr sc g ps n0 nn n3 r0 Hsim Ex eq_refl eq_refl Hns0) as Hsim1.
       fold j kr phi1 in Hsim1.
       set (sr1 := RowSem.set_group (fst (RowSem.add_node sr n0)) g (GNoOp ps (Some kr))) in *.
@@ -520,3 +525,4 @@ Proof.
     destruct (Hb ms sr sc sc' Hsim Hst Hd Hc) as [H1 H2]. split; [exact H1|split; [apply phi_le_refl|split; [exact H2|apply pframe_refl]]].
 Qed.
 End Group.
+End WithNames.
